@@ -2,7 +2,7 @@ SPECIFICATION Spec
 CONSTANTS
   Vals <- ValsT
   K = 3
-  Styles = {0, 1, 2, 3, 4, 5, 8, 9, 10, 13, 16, 21, 32, 37, 42, 63}
+  Styles = {0, 1, 2, 4, 5, 8, 13, 21, 32, 63}
   Shapes <- ShapesT
 INVARIANTS RoundTrip NoMarkers SegmentsCover
 CHECK_DEADLOCK FALSE
